@@ -639,6 +639,52 @@ func cacheLocks(l *loaded) (methods []string, allLocked bool) {
 	return
 }
 
+// blockedAll: BlockedModuleAccountAddrs marks every module account of maccPerms as blocked (the only assignment into the map has the
+// literal true on its right-hand side).
+func blockedAll(l *loaded) bool {
+	fd := l.funcDecl("BlockedModuleAccountAddrs")
+	if fd == nil || fd.Body == nil {
+		fail("app: BlockedModuleAccountAddrs not found")
+		return false
+	}
+	n, ok := 0, true
+	ast.Inspect(fd.Body, func(x ast.Node) bool {
+		as, is := x.(*ast.AssignStmt)
+		if !is || len(as.Lhs) != 1 || len(as.Rhs) != 1 {
+			return true
+		}
+		if _, idx := as.Lhs[0].(*ast.IndexExpr); !idx {
+			return true
+		}
+		n++
+		if id, isID := as.Rhs[0].(*ast.Ident); !isID || id.Name != "true" {
+			ok = false
+		}
+		return true
+	})
+	return ok && n == 1
+}
+
+// utf8Guards: what the two ValidateBasic functions do with free-form strings that are not UTF-8, observed by calling them on messages that
+// are valid in every other field. One entry per message: "<Msg>.<field>: ascii accepted=<bool> non-utf8 refused=<bool>".
+func utf8Guards() []string {
+	addr := sdk.AccAddress(make([]byte, 20)).String()
+	val := sdk.ValAddress(make([]byte, 20)).String()
+	rec := func(id string) error {
+		m := stypes.MsgRecord{Sender: addr, TenantId: 1, RequestId: id, Amount: sdk.NewCoin("uusdc", sdk.NewInt(1)), ChainId: "1",
+			ContractAddress: "0x00000000000000000000000000000000000000c1", TokenIdHex: "0x1"}
+		return m.ValidateBasic()
+	}
+	pre := func(h string) error {
+		m := otypes.MsgPrevote{Feeder: addr, Validator: val, Hash: h, RoundId: 0}
+		return m.ValidateBasic()
+	}
+	return []string{
+		fmt.Sprintf("MsgRecord.RequestId: ascii accepted=%v non-utf8 refused=%v", rec("r1") == nil, rec("\xff\xfe") != nil),
+		fmt.Sprintf("MsgPrevote.Hash: ascii accepted=%v non-utf8 refused=%v", pre("AB12") == nil, pre("\xc3\x28") != nil),
+	}
+}
+
 func main() {
 	repo := flag.String("repo", "/repo", "repository")
 	out := flag.String("out", "", "directory of the generated Lean files")
@@ -714,6 +760,8 @@ func main() {
 	w("/-- modules wired into the application that can execute messages on behalf of an account -/\ndef messageExecutingModules : List String := %s\n", leanList(mapS(moduleList(pkgs["app"]), leanStr)))
 	w("/-- methods of the feeder's BlockCache that touch the tree map, with whether they take the mutex first and release it by defer -/")
 	w("def cacheMethods : List String := %s\ndef cacheAllLocked : Bool := %v\n", leanList(mapS(methods, leanStr)), locked)
+	w("/-- every module account is on the bank's blocked list (app.go BlockedModuleAccountAddrs) -/\ndef moduleAccountsBlocked : Bool := %v\n", blockedAll(pkgs["app"]))
+	w("/-- free-form strings that reach the JSON genesis document: behaviour of the two ValidateBasic functions, observed -/\ndef utf8Guards : List String := %s\n", leanList(mapS(utf8Guards(), leanStr)))
 	w("end Settlus.Facts")
 
 	// translated integer functions
